@@ -5,7 +5,7 @@
 (* single-cell edit, MaxGen generations of save + load.                                                     *)
 EXTENDS Resave, Json
 
-CONSTANTS Family,       \* "full" | "mid" | "small"
+CONSTANTS Family,       \* "full" | "mid2" | "mid", "quick2" (thorough) | "quick" | "small" (replays)
           EmitReplay    \* TRUE: print one REPLAY line per behaviour when generation 1 is reached
 
 VARIABLE hist
@@ -22,8 +22,10 @@ Opt(S) == {{}} \cup {{x} : x \in S}
 CellSets ==
   IF Family = "full"
   THEN {a \cup b \cup c : a \in Opt(Variants(1, 1)), b \in Opt(Variants(1, 2)), c \in Opt(FewVariants(2, 1))}
-  ELSE IF Family = "mid"
+  ELSE IF Family \in {"mid", "mid2"}
   THEN {a \cup b \cup c : a \in Opt(Variants(1, 1)), b \in Opt(FewVariants(1, 2)), c \in Opt(FewVariants(2, 1))}
+  ELSE IF Family \in {"quick", "quick2"}
+  THEN {a \cup c : a \in Opt(Variants(1, 1)), c \in Opt(FewVariants(2, 1))}
   ELSE {a \cup b : a \in Opt(FewVariants(1, 1) \cup {Raw(1, 1, "", "", 2)}),
                      b \in Opt({Raw(2, 1, "s", 2, 1), Raw(2, 1, "", "", -1), Raw(2, 1, "", "", 2)})}
 
@@ -35,7 +37,7 @@ RowsFor(cs, ht1, extraRow) ==
 (* the other features of a file: string table with / without an unused item, a part the library does not model,
    row 1 plain / with a custom height / hidden, an extra row without cells (default-valued / styled / hidden / hidden
    with a height), a column entry (default-valued / hidden / wide / styled / all three).  "full": every combination;
-   otherwise the base file and every single deviation from it *)
+   "mid2": the base file and at most two deviations from it; otherwise the base file and every single deviation *)
 Feat(sst, ex, ht1, er, co) == [sst |-> sst, ex |-> ex, ht1 |-> ht1, er |-> er, co |-> co]
 SstSet == {<<"a", "a&b">>, <<"a", "a&b", "unused">>}
 ExSet  == {{}, {"customXml"}}
@@ -49,7 +51,9 @@ AllFeatures == {Feat(a, b, c, d, e) : a \in SstSet, b \in ExSet, c \in HtSet, d 
 Base == Feat(<<"a", "a&b">>, {}, <<"0", FALSE>>, {}, {})
 Differs(x) == (IF x.sst # Base.sst THEN 1 ELSE 0) + (IF x.ex # Base.ex THEN 1 ELSE 0)
               + (IF x.ht1 # Base.ht1 THEN 1 ELSE 0) + (IF x.er # Base.er THEN 1 ELSE 0) + (IF x.co # Base.co THEN 1 ELSE 0)
-Features == IF Family = "full" THEN AllFeatures ELSE {x \in AllFeatures : Differs(x) <= 1}
+Features == IF Family = "full" THEN AllFeatures
+            ELSE IF Family \in {"mid2", "quick2"} THEN {x \in AllFeatures : Differs(x) <= 2}
+            ELSE {x \in AllFeatures : Differs(x) <= 1}
 
 Files ==
   { [x0 |-> x0, xfs |-> <<x0, "S1">>, sst |-> ft.sst, extra |-> ft.ex, rid |-> "o",
